@@ -31,7 +31,7 @@ def get_mutable_plan_unit(ctx):
             log.append("copy")
             return P()
 
-    f = get("_transformations/__init__.py", "get_mutable_plan").compile_into({})
+    f = get("_transformations/__init__.py", "get_mutable_plan", native_loops="all").compile_into({})
     p = P()
     r = f(p, inplace=False)
     ctx.check("inplace=False:returns-plan.copy()(one-copy),never-the-plan-itself", bool(r is not p and isinstance(r, P) and log == ["copy"]))
@@ -82,9 +82,9 @@ def add_dependency_unit(ctx):
 @unit("misc.call-scope", props=["C15"], functions=[("_graph.py", "get_full_call_scope"), ("_util/__init__.py", "fully_qualified_name")],
       min_obligations=4, kind="concrete-parametric")
 def call_scope_unit(ctx):
-    fq = get("_util/__init__.py", "fully_qualified_name").compile_into({})
+    fq = get("_util/__init__.py", "fully_qualified_name", native_loops="all").compile_into({})
     env = {"fully_qualified_name": fq}
-    gfs = get("_graph.py", "get_full_call_scope").compile_into(env)
+    gfs = get("_graph.py", "get_full_call_scope", native_loops="all").compile_into(env)
 
     class C:
         def __init__(self, fn, scope):
@@ -120,12 +120,14 @@ def coerce_progress_unit(ctx):
         return ("composite", ps)
 
     env = {"null_progress": NULL, "default_progress": DEFAULT, "composite_progress": composite_progress, "Progress": Progress}
-    f = get("_run.py", "_coerce_progress").compile_into(env)
+    f = get("_run.py", "_coerce_progress", native_loops="all").compile_into(env)
     p1, p2 = Progress(), Progress()
     ctx.check("None/False/empty=>no-observer(null_progress)", bool(f(None) is NULL and f(False) is NULL and f(()) is NULL))
     ctx.check("True=>the-default-display", bool(f(True) is DEFAULT))
     ctx.check("a-Progress=>itself", bool(f(p1) is p1))
     ctx.check("an-iterable-of-Progress=>composite-of-exactly-those-in-order", bool(f([p1, p2]) == ("composite", (p1, p2)) and f((p2,)) == ("composite", (p2,))))
+    ctx.check("a-one-shot-iterable(generator,iterator)-of-Progress=>composite-of-exactly-those-in-order(it-is-consumed-once)",
+              bool(f(iter([p1, p2])) == ("composite", (p1, p2)) and f(p for p in [p2, p1]) == ("composite", (p2, p1))))
     kind, val = _catch(ctx, lambda: f(object()))
     ctx.check("anything-else=>TypeError", bool(kind == "raise" and isinstance(val, TypeError)))
     return "ok"
@@ -156,8 +158,8 @@ def sources_unit(ctx):
     class PS:
         pass
 
-    for m in ("read", "write", "get_modified_time", "_get_modified_time"):
-        setattr(PS, m, get(rel, f"PathSource.{m}").compile_into(env))
+    for m in ("read", "write", "get_modified_time"):       # private helper methods (whatever they are called) come in through the method fallback
+        setattr(PS, m, get(rel, f"PathSource.{m}", native_loops="all").compile_into(env))
     env["get_modified_time"] = get_modified_time     # the method of the same name shadowed the module-level function: re-bind
     PS.__getattr__ = real_method_fallback(rel, "PathSource", env)
     s = PS()
@@ -180,7 +182,7 @@ def sources_unit(ctx):
             pass
 
         for m in ("read", "write", "get_modified_time"):
-            setattr(S, m, get(rel, f"{cname}.{m}").compile_into({}))
+            setattr(S, m, get(rel, f"{cname}.{m}", native_loops="all").compile_into({}))
         o = S()
         V, T = object(), object()
         if "value" in fields:
@@ -244,7 +246,7 @@ def notifications_unit(ctx):
     S, A = ("a", 1), 3
     if which < 4:
         name = ("increment_total", "increment_running", "increment_completed", "increment_failed")[which]
-        f = get(SP, f"SimpleProgressObserver.{name}").compile_into(env)
+        f = get(SP, f"SimpleProgressObserver.{name}", native_loops="all").compile_into(env)
         try:
             raise ValueError("boom")
         except ValueError as e:
@@ -290,7 +292,7 @@ def notifications_unit(ctx):
     env["threading"] = _threading
     s._run_update_thread = "RUN_UPDATE_THREAD"
     if which == 4:
-        f = get(SP, "SimpleProgressObserver.__enter__").compile_into(env)
+        f = get(SP, "SimpleProgressObserver.__enter__", native_loops="all").compile_into(env)
         f(s)
         ctx.check("__enter__:starts-exactly-one-thread-whose-target-is-the-update-loop", bool(len(created) == 1 and created[0].target == "RUN_UPDATE_THREAD" and created[0].started == 1 and s._thread is created[0]))
         return "enter"
@@ -302,7 +304,7 @@ def notifications_unit(ctx):
     s._done_event = Event()
     t = Thread(target="x")
     s._thread = t
-    f = get(SP, "SimpleProgressObserver.__exit__").compile_into(env)
+    f = get(SP, "SimpleProgressObserver.__exit__", native_loops="all").compile_into(env)
     f(s, None, None, None)
     ctx.check("__exit__:sets-the-done-event-THEN-joins-the-update-thread(so-the-final-rendering-happens-before-run-returns)",
               bool([e for e in log if e in ("event.set", "thread.join")] == ["event.set", "thread.join"] and t.joined == 1))
@@ -318,8 +320,8 @@ def progress_factories_unit(ctx):
     import functools
 
     pr_env = {}
-    P_init = get("progress/_progress.py", "Progress.__init__").compile_into(pr_env)
-    P_obs = get("progress/_progress.py", "Progress.observer").compile_into(pr_env)
+    P_init = get("progress/_progress.py", "Progress.__init__", native_loops="all").compile_into(pr_env)
+    P_obs = get("progress/_progress.py", "Progress.observer", native_loops="all").compile_into(pr_env)
 
     class Progress:
         __init__ = P_init
@@ -346,7 +348,7 @@ def progress_factories_unit(ctx):
             self.output, self.kw = output, kw
 
     env = {"Progress": Progress, "CompositeProgressObserver": CompositeProgressObserver, "HtmlProgressObserver": HtmlProgressObserver, "partial": functools.partial}
-    cp = get("progress/__init__.py", "composite_progress", cut_comps=False).compile_into(env)
+    cp = get("progress/__init__.py", "composite_progress", cut_comps=False, native_loops="all").compile_into(env)
     a, b = Member("a"), Member("b")
     comp = cp(a, b)
     ctx.check("composite_progress:creates-no-observer-before-a-run-asks-for-one", bool(made == [] and isinstance(comp, Progress)))
@@ -356,7 +358,7 @@ def progress_factories_unit(ctx):
           and [m[1] for m in o1.members] == ["a", "b"] and [m[1] for m in o2.members] == ["a", "b"]
           and len(made) == 4 and not (set(map(id, o1.members)) & set(map(id, o2.members))))
     ctx.check("composite_progress:every-observer()-call-builds-a-new-composite-from-NEW-member-observers-in-order(single-use-displays-are-never-reused-across-runs)", bool(ok), info=str(made))
-    hp = get("progress/__init__.py", "html_progress").compile_into(env)
+    hp = get("progress/__init__.py", "html_progress", native_loops="all").compile_into(env)
     OUT = object()
     h = hp(OUT)
     h1, h2 = h.observer(), h.observer()
